@@ -15,6 +15,9 @@ from props import storeapi_lib as L
 PLAIN_EXT = ("", ".yaml")
 
 
+API_OPS = ("adelete", "arename", "asave", "adetails")   # the same operations through the real API handler
+
+
 def ext_of(name):
     b = name.rsplit("/", 1)[-1]
     i = b.rfind(".")
@@ -56,7 +59,8 @@ def subseq(a, b):
 def monitor_op(op, d0, d1, texts, dags_dir):
     """Returns a list of (what, cls) - the clauses of C18 that the observed step violates."""
     bad = []
-    kind = op["op"]
+    kind = {"adelete": "delete", "arename": "rename", "asave": "save", "adetails": "get"}.get(op["op"], op["op"])
+    via_api = op["op"] in API_OPS
     ok = op["res"] == "ok"
     changed = {f for f in d0.defs if f in d1.defs and d0.defs[f] != d1.defs[f]}
     removed = {f for f in d0.defs if f not in d1.defs}
@@ -65,7 +69,7 @@ def monitor_op(op, d0, d1, texts, dags_dir):
     flags_same = d0.flags == d1.flags
 
     def fail(what, **cls):
-        cls.setdefault("op", kind)
+        cls.setdefault("op", op["op"])
         bad.append((what, cls))
 
     if kind in ("create", "createraw"):
@@ -133,6 +137,13 @@ def monitor_op(op, d0, d1, texts, dags_dir):
             fail("delete changed or created a definition", **{"class": "delete-other"})
         if len(removed) > 1 or (ok and len(removed) != 1) or (not ok and removed):
             fail("delete removed %d definitions (result %s)" % (len(removed), op["res"]), **{"class": "delete-result"})
+        addressed = (op.get("loc") or "").rsplit("/", 1)[-1]
+        if removed and removed != {addressed}:
+            fail("delete of %r removed the definition %s instead of %s: another DAG's definition" % (op["name"], sorted(removed), addressed),
+                 **{"class": "delete-wrong-definition"})
+        if via_api and not ok and not d0.same(d1):
+            fail("a delete refused by the API (%s) changed the store (history of the DAG erased?)" % op["res"],
+                 **{"class": "failed-delete-has-effects"})
         for l in set(d0.byloc) | set(d1.byloc):
             if l != op.get("loc") and d0.byloc.get(l) != d1.byloc.get(l):
                 fail("delete changed the history of another DAG (%s)" % l, **{"class": "delete-other-history"})
@@ -174,6 +185,20 @@ def monitor_case(c, texts):
 def c_op(op, real):
     k = op["op"]
     n = cstring(op.get("name", ""))
+    if k == "adelete":
+        return "XADelete %s" % n
+    if k == "arename":
+        return "XARename %s %s" % (n, cstring(op.get("new", "")))
+    if k == "asave":
+        return "XASave %s %s" % (n, cstring(op["text"]))
+    if k == "adetails":
+        return "XADetails %s" % n
+    return "XOp (%s)" % c_op0(op, real)
+
+
+def c_op0(op, real):
+    k = op["op"]
+    n = cstring(op.get("name", ""))
     if k == "create":
         return "OCreate %s %s" % (n, cstring("T0"))
     if k == "createraw":
@@ -203,7 +228,8 @@ def c_obs(op, real):
     defs = clist(["(%s, %s)" % (cstring(L.MDIR + "/" + f), cstring(t)) for f, t in d["defs"]])
     hist = clist(["(%s, %s)" % (cstring(L.map_path(h["loc"], real)), clist([L.c_run(r["stamp"], r["lines"]) for r in h["runs"]]))
                   for h in d["hist"]])
-    return "mkObs %d %s %d %s %s %s" % (L.RES.get(op["res"], 9), clist([cstring(x) for x in op.get("out") or []]),
+    res = op["code"] if op["op"] in API_OPS else L.RES.get(op["res"], 9)
+    return "mkObs %d %s %d %s %s %s" % (res, clist([cstring(x) for x in op.get("out") or []]),
                                         op.get("errs", 0), defs, hist, clist([cstring(f) for f in d["flags"]]))
 
 
@@ -217,10 +243,11 @@ CODES = {1: "result class", 2: "output", 3: "definition files", 4: "history file
 def model_check(ctx, cases, texts):
     valid = clist([cstring(t) for t, v in sorted(texts.items()) if v["load"]])
     meta = clist([cstring(t) for t, v in sorted(texts.items()) if v["meta"]])
+    graph = clist([cstring(t) for t, v in sorted(texts.items()) if v["graph"]])
     header = ("From Coq Require Import List String Ascii ZArith.\nImport ListNotations.\nOpen Scope string_scope.\n"
               "From BD.DagStore Require Import Model Check.\n"
-              "Definition cases : list (list (op * obs)) := [\n%%s\n].\n"
-              "Definition M := Eval vm_compute in mismatches %s %s %s cases.\nPrint M.\n" % (valid, meta, cstring(L.MDIR)))
+              "Definition cases : list (list (xop * obs)) := [\n%%s\n].\n"
+              "Definition M := Eval vm_compute in mismatches %s %s %s %s cases.\nPrint M.\n" % (valid, graph, meta, cstring(L.MDIR)))
     shards = L.shard(cases, lambda c: len(c["ops"]), 260)
     res = L.eval_shards(ctx, "cases_c18", header, shards, c_case)
     bad = []
